@@ -1,11 +1,37 @@
-"""Model checking of Store.tla (implementation-shaped store commands with Crash) for the store properties."""
+"""Model checking of Store.tla (implementation-shaped store commands with Crash at every step)."""
+import os
+
 from .. import common as C
+
+# the model follows the code: flip when the corresponding repair is committed in /repo (known_findings.json)
+MODEL_FIXED_D2 = False
+MODEL_FIXED_D10 = False
+
+INVS = ["C06", "C08", "C11", "C12", "C13", "IndexNeverOutlivesData"]
+
+
+def write_cfg(name, exps, maxclock, maxcmds):
+    with open(os.path.join(C.SPECS, name), "w") as f:
+        f.write("CONSTANT Exps = {%s}\n" % ", ".join(str(e) for e in exps))
+        f.write("CONSTANT MaxClock = %d\nCONSTANT MaxCmds = %d\n" % (maxclock, maxcmds))
+        f.write("CONSTANT FixedD2 = %s\n" % ("TRUE" if MODEL_FIXED_D2 else "FALSE"))
+        f.write("CONSTANT FixedD10 = %s\n" % ("TRUE" if MODEL_FIXED_D10 else "FALSE"))
+        f.write("SPECIFICATION Spec\n")
+        for i in INVS:
+            f.write("INVARIANT %s\n" % i)
+        f.write("PROPERTY FailedRestoreKeepsIndex\nCHECK_DEADLOCK FALSE\n")
+    return name
 
 
 def check(rep, tier, prop):
-    cfg = "Store_mc.cfg" if tier == "quick" else "Store_thorough.cfg"
-    res = C.run_tlc("Store.tla", cfg=cfg, timeout=300 if tier == "quick" else 2400)
+    if tier == "quick":
+        cfg = write_cfg("_gen_Store_%s.cfg" % prop, [1], 3, 4)
+        res = C.run_tlc("Store.tla", cfg=cfg, timeout=300)
+    else:
+        cfg = write_cfg("_gen_Store_%s.cfg" % prop, [1, 2], 3, 4)
+        res = C.run_tlc("Store.tla", cfg=cfg, timeout=3000)
     if res.error or (res.timed_out and tier == "quick"):
         rep.machinery("TLC Store model check failed: %s" % (res.error or "timeout"))
     rep.cov["model_invariants_violated"] = sorted(set(res.violated))
+    rep.cov["model_timed_out"] = res.timed_out
     return res
